@@ -15,6 +15,9 @@ import (
 	"go/ast"
 	"go/parser"
 	"go/token"
+	"io/ioutil"
+	"os"
+	"path/filepath"
 	"sort"
 	"strings"
 
@@ -404,6 +407,10 @@ func Run(run *core.Run) {
 			cased(fmt.Sprintf("%s:resseq:%s", wkey, key), func() { restoreFault(run, w, truth, plans, twinBytes, "seq") })
 		}
 	}
+	// ---- decoration of things that are not a single *ast.File: an isolated node and a directory
+	if !run.Failed() && run.T.Bool(1, 3) {
+		nonFileFaults(run, w, wkey, cased)
+	}
 }
 
 // decorateFault injects one fault on the decorate side and checks the five obligations.
@@ -664,5 +671,165 @@ func naturalRestoreFault(run *core.Run, w *workload, truth map[string]string, mi
 	}
 	if !bytes.Equal(out, twinBytes) {
 		run.Fail("c17/restore/retry-mismatch", "natural", "retry after natural not-found of %s differs from the failure-free result", missing)
+	}
+}
+
+// tableResolver is a caller-supplied DecoratorResolver that needs no *ast.File: it resolves
+// `name.Sel` through a fixed name -> path table (the way a resolver backed by type information
+// would). goast cannot be used where dst passes a nil file (isolated nodes, ParseDir).
+type tableResolver map[string]string
+
+func (t tableResolver) ResolveIdent(file *ast.File, parent ast.Node, parentField string, id *ast.Ident) (string, error) {
+	se, ok := parent.(*ast.SelectorExpr)
+	if !ok || parentField != "Sel" {
+		return "", nil
+	}
+	x, ok := se.X.(*ast.Ident)
+	if !ok || x.Obj != nil {
+		return "", nil
+	}
+	return t[x.Name], nil
+}
+
+func tableFor(sp gen.Spec) tableResolver {
+	t := tableResolver{}
+	for _, im := range sp.Imports {
+		if im.Alias == "_" || im.Alias == "." {
+			continue
+		}
+		t[im.LocalName()] = im.Pkg.Path
+	}
+	return t
+}
+
+// nonFileFaults enumerates every fault position while decorating (a) one isolated declaration and
+// (b) a directory through ParseDir, with a caller-supplied resolver. Obligations: no panic, the
+// error wraps the fault, nothing is returned, and a retry equals the failure-free result.
+func nonFileFaults(run *core.Run, w *workload, wkey string, cased func(string, func())) {
+	table := tableFor(w.spec)
+	// (a) an isolated node
+	decorateNode := func(plan *faults.Plan) (out dst.Node, iw *faults.Ident, err error, pi *core.PanicInfo) {
+		fset, af, perr := parse(w.spec.Src)
+		if perr != nil {
+			panic(perr)
+		}
+		var target ast.Node
+		for _, d := range af.Decls {
+			if gd, ok := d.(*ast.GenDecl); ok && gd.Tok == token.IMPORT {
+				continue
+			}
+			target = d
+			break
+		}
+		if target == nil {
+			return nil, nil, nil, nil
+		}
+		iw = &faults.Ident{Inner: table, Plan: plan}
+		dec := decorator.NewDecoratorWithImports(fset, LocalPath, iw)
+		pi = core.Catch(func() { out, err = dec.DecorateNode(target) })
+		return
+	}
+	ref, iw, err, pi := decorateNode(nil)
+	if iw != nil && pi == nil && err == nil {
+		want := dump.String(ref, dump.Options{})
+		for k := 1; k <= iw.Calls && !run.Failed(); k++ {
+			k := k
+			cased(fmt.Sprintf("%s:node:%d", wkey, k), func() {
+				plan := &faults.Plan{KthCall: k}
+				out, fw, err, pi := decorateNode(plan)
+				run.Event("nodefault #%d err=%v", k, err != nil)
+				if pi != nil {
+					run.Fail("c17/decorate/panic", "node|"+pi.Sig(), "DecorateNode of an isolated declaration panicked with a fault at call %d: %s\n%s", k, pi.Value, pi.Stack)
+					return
+				}
+				if fw.Fired == 0 {
+					return
+				}
+				run.Count("fault-fired/ident-kth(isolated-node)")
+				if err == nil || !errors.Is(err, plan.Err) {
+					run.Fail("c17/decorate/error-not-wrapped", "node", "DecorateNode with a fault at call %d returned %v", k, err)
+					return
+				}
+				if out != nil {
+					run.Fail("c17/decorate/tree-emitted", "node", "DecorateNode returned a node together with the error")
+					return
+				}
+				again, _, err2, pi2 := decorateNode(nil)
+				if pi2 != nil || err2 != nil || dump.String(again, dump.Options{}) != want {
+					run.Fail("c17/decorate/retry-mismatch", "node", "retry after a fault at call %d differs from the failure-free result (%v %v)", k, pi2, err2)
+				}
+			})
+		}
+	}
+	// (b) a directory
+	dir, derr := ioutil.TempDir("", "dstsim-c17-")
+	if derr != nil {
+		panic("harness: " + derr.Error())
+	}
+	defer os.RemoveAll(dir)
+	second := strings.Replace(w.spec.Src, "package "+w.spec.PkgName, "package "+w.spec.PkgName+"\n\n// second file", 1)
+	ioutil.WriteFile(filepath.Join(dir, "a.go"), []byte(w.spec.Src), 0644)
+	ioutil.WriteFile(filepath.Join(dir, "b.go"), []byte(second), 0644)
+	parseDir := func(plan *faults.Plan) (out string, n int, iw *faults.Ident, err error, pi *core.PanicInfo) {
+		iw = &faults.Ident{Inner: table, Plan: plan}
+		dec := decorator.NewDecoratorWithImports(token.NewFileSet(), LocalPath, iw)
+		pi = core.Catch(func() {
+			pkgs, e := dec.ParseDir(dir, nil, 0)
+			err = e
+			n = len(pkgs)
+			var names []string
+			for name := range pkgs {
+				names = append(names, name)
+			}
+			sort.Strings(names)
+			for _, name := range names {
+				var fns []string
+				for fn := range pkgs[name].Files {
+					fns = append(fns, fn)
+				}
+				sort.Strings(fns)
+				for _, fn := range fns {
+					out += filepath.Base(fn) + "\n" + dump.String(pkgs[name].Files[fn], dump.Options{})
+				}
+			}
+		})
+		return
+	}
+	want, _, iw2, err, pi := parseDir(nil)
+	if pi != nil || err != nil {
+		run.Count("parsedir-faultfree-failed")
+		return
+	}
+	step := 1
+	if iw2.Calls > 24 {
+		step = iw2.Calls / 24
+	}
+	for k := 1; k <= iw2.Calls && !run.Failed(); k += step {
+		k := k
+		cased(fmt.Sprintf("%s:dir:%d", wkey, k), func() {
+			plan := &faults.Plan{KthCall: k}
+			_, n, fw, err, pi := parseDir(plan)
+			run.Event("dirfault #%d err=%v", k, err != nil)
+			if pi != nil {
+				run.Fail("c17/decorate/panic", "dir|"+pi.Sig(), "ParseDir panicked with a resolver fault at call %d: %s\n%s", k, pi.Value, pi.Stack)
+				return
+			}
+			if fw.Fired == 0 {
+				return
+			}
+			run.Count("fault-fired/ident-kth(ParseDir)")
+			if err == nil || !errors.Is(err, plan.Err) {
+				run.Fail("c17/decorate/error-not-wrapped", "dir", "ParseDir with a fault at call %d returned %v", k, err)
+				return
+			}
+			if n != 0 {
+				run.Fail("c17/decorate/tree-emitted", "dir", "ParseDir returned %d packages together with the error", n)
+				return
+			}
+			again, _, _, err2, pi2 := parseDir(nil)
+			if pi2 != nil || err2 != nil || again != want {
+				run.Fail("c17/decorate/retry-mismatch", "dir", "ParseDir retry after a fault at call %d differs from the failure-free result", k)
+			}
+		})
 	}
 }
